@@ -99,7 +99,12 @@ def collect(ctx, props, plans, design=(), report_deaths=False, me=1):
             consts = {"MaxSteps": p["steps"], "AvoidPanics": "TRUE" if p.get("avoid", True) else "FALSE",
                       "AllowCrash": "TRUE" if p.get("crash") else "FALSE", "MaxH": p.get("maxh", 2), "MaxR": p.get("maxr", 1),
                       "Universe": p.get("universe", "Small"), "RichEntrances": "TRUE" if p.get("rich") else "FALSE"}
-            behs, res, edges = run.edge_cover(consts, timeout=p.get("timeout", 1500))
+            behs, res, edges = run.edge_cover(consts, timeout=p.get("timeout", 1500), workers=p.get("workers", 1))
+            if p.get("visit"):
+                # directed export: only the behaviours that pass through one of the named steps (the timed delay steps are
+                # what random simulation rarely reaches)
+                want = set(p["visit"])
+                behs = [b for b in behs if any(isinstance(st.get("exp"), dict) and st["exp"].get("S") in want for st in b)]
             total = len(behs)
             if p.get("cap") and total > p["cap"]:
                 rnd = random.Random(ctx.seed)
